@@ -31,7 +31,7 @@ func init() {
 			"and virtual timestamps: own reply, reply-before-timeout returned, timeout after, progress order and none after return, exactly one CANCEL with the configured mode and the context's error, " +
 			"one handler run and one YIELD/ERROR per invocation, context cancelled on INTERRUPT, serial in-order event handlers; non-trivial = >=2 replies delivered in an order different from the " +
 			"request order, or a cancel/timeout coinciding with a reply",
-		Required: []string{"CL1", "CL2", "CL3", "CL4", "CL5", "CL6", "CL7", "CL12", "CL13"},
+		Required: []string{"CL1", "CL2", "CL3", "CL4", "CL5", "CL6", "CL7", "CL11", "CL12", "CL13", "CL14"},
 		Level:    "exploration",
 	})
 }
@@ -107,7 +107,7 @@ func runC16(c *Case) {
 			for g := 0; g < G; g++ {
 				op := &c16Op{g: g}
 				ops[g] = op
-				kinds := []string{"subscribe", "register", "publish", "call", "callprog", "callcancel", "subscribe", "register", "publish", "call", "callprog", "callcancel", "callprogslow", "callcancelstream"}
+				kinds := []string{"subscribe", "register", "publish", "call", "callprog", "callcancel", "subscribe", "register", "publish", "call", "callprog", "callcancel", "callprogslow", "callcancelstream", "callprogressive", "callprogressive"}
 				mu.Lock()
 				if len(subs) > 0 {
 					kinds = append(kinds, "unsubscribe")
@@ -220,6 +220,29 @@ func runC16(c *Case) {
 						mu.Lock()
 						done = true
 						mu.Unlock()
+					case "callprogressive":
+						// CallProgressive: the call's input is sent in 3 chunks (same request id), results as for callprog
+						done, sent := false, 0
+						ctx, cancel := context.WithTimeout(context.Background(), tmo)
+						defer cancel()
+						sendProg := func(context.Context) (wamp.Dict, wamp.List, wamp.Dict, error) {
+							sent++
+							return wamp.Dict{"progress": sent < 3}, wamp.List{op.name, sent}, nil, nil
+						}
+						op.result, op.err = w.cli.CallProgressive(ctx, op.name, sendProg, func(res *wamp.Result) {
+							mu.Lock()
+							if done {
+								op.progAfter = true
+							}
+							if len(res.Arguments) > 1 {
+								n, _ := canon.AsID(res.Arguments[1])
+								op.progress = append(op.progress, int(n))
+							}
+							mu.Unlock()
+						})
+						mu.Lock()
+						done = true
+						mu.Unlock()
 					case "callprogslow":
 						done, active := false, 0
 						ctx, cancel := context.WithTimeout(context.Background(), tmo)
@@ -304,7 +327,7 @@ func runC16(c *Case) {
 					op, req = byName["publish|"+string(x.Topic)], uint64(x.Request)
 				case *wamp.Call:
 					req = uint64(x.Request)
-					for _, k := range []string{"call", "callprog", "callcancel", "callprogslow", "callcancelstream"} {
+					for _, k := range []string{"call", "callprog", "callcancel", "callprogslow", "callcancelstream", "callprogressive"} {
 						if o := byName[k+"|"+string(x.Procedure)]; o != nil {
 							op = o
 						}
@@ -314,6 +337,9 @@ func runC16(c *Case) {
 				}
 				if op == nil {
 					continue
+				}
+				if op.kind == "callprogressive" && op.req == req {
+					continue // a further chunk of the same call
 				}
 				op.req = req
 				order = append(order, req)
@@ -350,7 +376,7 @@ func runC16(c *Case) {
 						plan = append(plan, reply{time.Duration(k) * tmo / 3, &wamp.Result{Request: wamp.ID(req), Details: wamp.Dict{"progress": true}, Arguments: wamp.List{tok, k + 1}}, nil})
 					}
 				}
-				if op.kind == "callprog" && op.answer != "none" {
+				if (op.kind == "callprog" || op.kind == "callprogressive") && op.answer != "none" {
 					for k := 1; k <= 3; k++ {
 						plan = append(plan, reply{op.delay / 2, &wamp.Result{Request: wamp.ID(req), Details: wamp.Dict{"progress": true}, Arguments: wamp.List{tok, k}}, nil})
 					}
@@ -465,7 +491,7 @@ func runC16(c *Case) {
 					}
 				case op.answer == "none" || (!inTime && !atTie):
 					c.Hit("CL2")
-					isCall := op.kind == "call" || op.kind == "callprog" || op.kind == "callprogslow"
+					isCall := op.kind == "call" || op.kind == "callprog" || op.kind == "callprogslow" || op.kind == "callprogressive"
 					if op.err == nil {
 						c.Fail("CL2", "call returned success without a timely reply: "+op.kind, "%s: returned success", desc)
 					} else if isCall {
@@ -496,7 +522,7 @@ func runC16(c *Case) {
 						break
 					}
 					switch op.kind {
-					case "call", "callprog":
+					case "call", "callprog", "callprogressive":
 						if op.result == nil || tokenOf(op.result.Arguments) != tok {
 							c.Fail("CL1", "call returned another request's result", "%s: expected token %s, got %v", desc, tok, op.result)
 						}
@@ -529,7 +555,25 @@ func runC16(c *Case) {
 						c.Fail("CL3", "progress handler still running or called after Call returned", "%s: a progressive result arrived 1 ms before the context's deadline and its handler takes 5 ms; Call returned (%v) while the handler was still running", desc, op.err)
 					}
 				}
-				if op.kind == "callprog" && op.answer != "none" && inTime {
+				if op.kind == "callprogressive" {
+					// what the router saw: chunks 1,2,3 of one request, in order, the last one without the progress flag
+					c.Hit("CL14")
+					var seq []string
+					for _, m := range w.rtr.All() {
+						if x, ok := m.Msg.(*wamp.Call); ok && uint64(x.Request) == op.req && len(x.Arguments) > 1 {
+							k, _ := canon.AsID(x.Arguments[1])
+							pr, _ := x.Options["progress"].(bool)
+							seq = append(seq, fmt.Sprintf("%d:%v", k, pr))
+						}
+					}
+					want := "1:true 2:true 3:false"
+					got := strings.Join(seq, " ")
+					// a call that ended early (error reply, expiry) may legitimately stop sending chunks
+					if op.err == nil && got != want || !strings.HasPrefix(want, got) {
+						c.Fail("CL14", "progressive call chunks lost, reordered or wrongly flagged", "%s: the router received chunks [%s] for the call, expected [%s] (a prefix of it if the call ended early); Call returned err=%v", desc, got, want, op.err)
+					}
+				}
+				if (op.kind == "callprog" || op.kind == "callprogressive") && op.answer != "none" && inTime {
 					c.Hit("CL3")
 					if op.progAfter {
 						c.Fail("CL3", "progress handler called after Call returned", "%s", desc)
